@@ -23,11 +23,14 @@ type Deviation struct {
 
 // Deviations used by the determinism check: every replica is cold (fresh instance = fresh process-local state);
 // clock offsets straddle every duration threshold in the code (5 minutes in the oracle module, days for
-// deposits); seeds 1..7 give the other rotations of small maps (seed 0 is the baseline).
+// deposits); seeds 1..7 give the other rotations of small maps (seed 0 is the baseline). A map of up to 8
+// entries is iterated from slot (seed & 7), wrapping: only a start slot below the number of entries changes
+// the order, so every combined deviation uses a seed whose low three bits are 1 (the rotation that reorders
+// every map with two or more entries); the higher bits vary the start bucket / offset of larger maps.
 var Deviations = []Deviation{
 	{Name: "cold+clock+7m+seed1", Clock: 7 * time.Minute, Seed: 1, Cold: true},
-	{Name: "cold+clock-7m+seed3", Clock: -7 * time.Minute, Seed: 3, Cold: true},
-	{Name: "cold+clock+400d+seed6", Clock: 400 * 24 * time.Hour, Seed: 6, Cold: true},
+	{Name: "cold+clock-7m+seed9", Clock: -7 * time.Minute, Seed: 9, Cold: true},
+	{Name: "cold+clock+400d+seed17", Clock: 400 * 24 * time.Hour, Seed: 17, Cold: true},
 }
 
 var singleDeviations = []Deviation{
@@ -44,7 +47,7 @@ func init() {
 	// a replica whose host clock agrees with the chain's block time (a node that runs "live"): this is the
 	// side of the 5-minute freshness threshold that a replay years later never sees
 	live := GenesisTime.Add(time.Minute).Sub(time.Now())
-	Deviations = append(Deviations, Deviation{Name: "cold+clock=blocktime+seed2", Clock: live, Seed: 2, Cold: true})
+	Deviations = append(Deviations, Deviation{Name: "cold+clock=blocktime+seed25", Clock: live, Seed: 25, Cold: true})
 	singleDeviations = append(singleDeviations, Deviation{Name: "host-clock", Clock: live, Cold: true})
 }
 
@@ -153,23 +156,26 @@ func (r *Replicas) Apply(e *Env, s *State, op Op) []Finding {
 		devs = []Deviation{{Name: "cold-instance", Cold: true}}
 		reps = append(reps, r.runReplica(e, s, op, devs[0]))
 	}
-	preFork := s.Fork() // kept for attribution re-runs
-	r.Inner.Apply(e, s, op)
-	h0, per0 := wholeState(e, s.Ctx)
+	// the baseline transition runs on a branch of s, so that s itself stays the untouched pre-state for the
+	// attribution re-runs below (a branch taken from s would see later writes to s); s adopts the result at the end
+	post := s.Fork()
+	post.fork = s.fork
+	r.Inner.Apply(e, post, op)
+	h0, per0 := wholeState(e, post.Ctx)
 	var fs []Finding
 	for i, rep := range reps {
-		if rep.enabled && bytes.Equal(rep.hash, h0) && rep.last == s.Last {
+		if rep.enabled && bytes.Equal(rep.hash, h0) && rep.last == post.Last {
 			continue
 		}
 		// attribute: which single dimension reproduces the difference, and where it shows
-		dim, where := "combined", describeDiff(per0, rep, s.Last)
+		dim, where := "combined", describeDiff(per0, rep, post.Last)
 		for _, sd := range singleDeviations {
 			if !envseam.Controlled && sd.Name != "cold-instance" {
 				continue
 			}
-			x := r.runReplica(e, preFork, op, sd)
-			if !x.enabled || !bytes.Equal(x.hash, h0) || x.last != s.Last {
-				dim, where = sd.Name, describeDiff(per0, x, s.Last)
+			x := r.runReplica(e, s, op, sd)
+			if !x.enabled || !bytes.Equal(x.hash, h0) || x.last != post.Last {
+				dim, where = sd.Name, describeDiff(per0, x, post.Last)
 				break
 			}
 		}
@@ -177,6 +183,9 @@ func (r *Replicas) Apply(e *Env, s *State, op Op) []Finding {
 			"transition %s from the same state differs between the baseline and replica %s (attributed to %s): %s", op.Name, devs[i].Name, dim, where))
 		break
 	}
+	depth := s.Depth
+	*s = *post
+	s.Depth = depth
 	return fs
 }
 
